@@ -34,6 +34,14 @@ P = {
    "All ten signing entry points of the real signer service with real BLS keys (local, remote ordinary, remote distributed with 2-of-3 threshold recovery): slots on both sides of an epoch and a fork boundary x message field values x all account-kind batches up to length 3 (thorough 4); every returned signature is BLS-verified against an independently merkleised signing root and independently computed domain. Inputs are enumerated completely within the alphabet.",
    "Trusted: herumi BLS, go-eth2-client HashTreeRoot of spec types, the stand-in accounts modelled on the dirk client; value domains are small alphabets, not all 2^256 roots.",
    SEQ, "DESIGN.md §6 C06"),
+ "C13": ("model_checking",
+   "Specifier lists (<=2, thorough <=3, over 10 specifiers incl. anchors, character classes and alternation) x wallets x account names through both account managers' real admission path, compared with Go-regexp full-match semantics; all validator records (activation/exit/withdrawable in {past,=epoch,future,far-future}, slashed) x epochs 0..3 through the managers over the real validators manager; all refresh-outcome sequences (<=4, thorough 6) for the validators manager and dirk. Configurations, inputs and fault sequences are enumerated completely within the alphabet.",
+   "Trusted: in-package hooks only add constructors/accessors; go-eth2-client's ValidatorToState; 'only if' direction for admission.",
+   SEQ, "DESIGN.md §6 C13"),
+ "C17": ("model_checking",
+   "Overlap scenarios of operations that run on different goroutines in production, explored over all interleavings within a preemption bound (quick 1, thorough 2) in a -race build: the controlled runtime's token hand-offs carry no happens-before edge and shimmed primitives perform the real synchronisation, so ThreadSanitizer decides, per explored schedule, whether two conflicting vouch accesses are unordered. Schedules are the quantifier.",
+   "Trusted: ThreadSanitizer; release/acquire annotations of model-only primitives (Cond, semaphore, WaitGroup); scenario list (scheduler, cache, block relay; more are added as other harnesses come online).",
+   MC + " under the Go race detector (preemption-bounded)", "DESIGN.md §6 C17"),
 }
 checks = []
 for pid in ids:
